@@ -421,3 +421,17 @@ pub fn placed_seq(items: &[Vec<u8>], salt: u64, mut f: impl FnMut(&[u8])) {
 pub fn with_history(idx: u64, one_in: u64) -> bool {
     crate::rng::mix(idx ^ 0x4157) % one_in == 0
 }
+
+/// For monitors whose per-case cost is high: the exhaustive single-field sweeps are taken as a
+/// random sample of `1/div` of their size (they stay exhaustive in the monitors that are cheap
+/// per case). The sampled stream has the name `<name>-s`, which the case generators understand.
+pub fn sample_sweeps(streams: Vec<StreamSpec>, tier: Tier, div_v1: u64, div_v2: u64) -> Vec<StreamSpec> {
+    streams
+        .into_iter()
+        .map(|s| match s.name {
+            "v1-sweep" if tier != Tier::Miri => stream("v1-sweep-s", s.count / div_v1),
+            "v2-sweep" if tier != Tier::Miri => stream("v2-sweep-s", s.count / div_v2),
+            _ => s,
+        })
+        .collect()
+}
